@@ -76,6 +76,13 @@ def check_case(ctx, case):
     except (RuntimeError, ValueError, ZeroDivisionError) as e:
         ctx.reject(type(e).__name__ + ':' + str(e)[:30])
         return
+    except OverflowError as e:
+        # the unbounded 'lm' search may leave the floating-point range of a model ("lm where it converges")
+        if case['method'] == 'lm':
+            ctx.reject('lm-diverged:OverflowError')
+            return
+        ctx.violation('crash', '%s: %s' % (type(e).__name__, e), case)
+        return
     except TypeError as e:
         if 'must not exceed the number of data points' in str(e):
             ctx.reject('more-parameters-than-lags')
